@@ -564,6 +564,12 @@ def oracle_ll(t, r, L, op):
             return
         _expect(L, "P fvalid 0", f"{op}: aws_linked_list_is_valid must reject a corrupted sentinel")
         return
+    elif name == "fempty":
+        j = int(t[1][1:])
+        if skip_if(r.lists[j] is None):
+            return
+        _expect(L, f"P fempty {0 if r.lists[j] else 1}", f"{op}: aws_linked_list_empty is decided by head.next alone")
+        return
     elif name == "fdeep":
         j, k = int(t[1][1:]), int(t[2][1:])
         if skip_if(r.lists[j] is None or r.where[k] != j):
@@ -865,7 +871,9 @@ def gen_ll_case(rng, maxops, debug=False):
                 a, b = (f"n{k}", f"n{k}") if rng.random() < 0.15 else (rng.choice(pool), rng.choice(pool))
                 _sim_ll(s, f"ll probe n{k} {a} {b}")
         elif op == "forge":
-            if rng.random() < 0.5 or not r.lists[j]:
+            if rng.random() < 0.3:
+                _sim_ll(s, f"ll fempty L{j}")
+            elif rng.random() < 0.5 or not r.lists[j]:
                 _sim_ll(s, f"ll fvalid L{j} {rng.choice(['hn', 'hp', 'tp', 'tn'])}")
             else:
                 _sim_ll(s, f"ll fdeep L{j} n{rng.choice(r.lists[j])}")
